@@ -1,5 +1,6 @@
 import SparseSpace.Properties.C07
 import SparseSpace.Properties.C07b
+import SparseSpace.Properties.C07gen
 #print axioms SparseSpace.C07.children_partition_all
 #print axioms SparseSpace.C07.children_partition_single
 #print axioms SparseSpace.C07.tiles_meaning
@@ -39,3 +40,16 @@ import SparseSpace.Properties.C07b
 #print axioms SparseSpace.C07b.v12_reproduces
 #print axioms SparseSpace.C07b.v12_reachable_valid
 #print axioms SparseSpace.C07b.v1_2d_is_standard
+-- translator tie (Properties/C07gen.lean): coarsen_grid / collision dictionary / flexible-evaluation prefix generated from the source by tools/py2lean agree with Model/ExtendSplit
+#print axioms SparseSpace.C07gen.add_level_agrees
+#print axioms SparseSpace.C07gen.is_already_calculated_agrees
+#print axioms SparseSpace.C07gen.update_agrees
+#print axioms SparseSpace.C07gen.sorted_top_agrees
+#print axioms SparseSpace.C07gen.v0_loop_agrees
+#print axioms SparseSpace.C07gen.v12_loop_agrees
+#print axioms SparseSpace.C07gen.coarsen_grid_agrees
+#print axioms SparseSpace.C07gen.pass_agrees
+#print axioms SparseSpace.C07gen.flex_prefix_agrees
+#print axioms SparseSpace.C07gen.gen_v0_local_is_standard
+#print axioms SparseSpace.C07gen.gen_v12_local_valid_lmin1
+#print axioms SparseSpace.C07gen.gen_coarsening_nonneg_when_used
